@@ -118,6 +118,7 @@ type PkgSpec struct {
 	Opaque    []string
 	Callers   []*CallersRule
 	NonBlock  []*CallersRule // "nonblocking F1, F2": Allowed holds the functions
+	FieldTags    []*CallersRule // "fieldtag T.f KEY VALUE"
 	InitValues   []*CallersRule // "initvalues VAR all|some RE": Callee = VAR, Allowed = {mode, re}
 	StoredFields []*CallersRule // "storedfields T1, T2": Allowed holds the type names
 	Axioms    []*FuncSpec
@@ -281,6 +282,20 @@ func parseSpecFile(path string, ps *PkgSpec, trustedFile bool) error {
 				allowed = append(allowed, strings.TrimSpace(a))
 			}
 			ps.Callers = append(ps.Callers, &CallersRule{Callee: strings.TrimSpace(rest[:oi]), Allowed: allowed, Label: label, Tags: tags, File: path, Line: ln})
+			cur = nil
+		case strings.HasPrefix(t, "fieldtag "):
+			// fieldtag T.f KEY "VALUE" #label @tags   the struct tag of field f of type T has KEY:"VALUE" (the name
+			// under which a configuration or wire field is read: a typo makes the decoder ignore it silently)
+			text, label, tags := splitLabelTags(" " + strings.TrimPrefix(t, "fieldtag "))
+			f := strings.Fields(strings.TrimSpace(text))
+			if len(f) != 3 {
+				return fmt.Errorf("%s:%d: fieldtag T.f KEY \"VALUE\"", path, ln)
+			}
+			val, err := strconv.Unquote(f[2])
+			if err != nil {
+				return fmt.Errorf("%s:%d: fieldtag: bad quoted value", path, ln)
+			}
+			ps.FieldTags = append(ps.FieldTags, &CallersRule{Callee: f[0], Allowed: []string{f[1], val}, Label: label, Tags: tags, File: path, Line: ln})
 			cur = nil
 		case strings.HasPrefix(t, "initvalues "):
 			// initvalues VAR all|some "GO-REGEXP" #label @tags   the string literals in the initialiser of the
